@@ -43,7 +43,9 @@ type gateLogEntry struct {
 
 type tidKey struct{}
 
-func withTid(ctx context.Context, tid int) context.Context { return context.WithValue(ctx, tidKey{}, tid) }
+func withTid(ctx context.Context, tid int) context.Context {
+	return context.WithValue(ctx, tidKey{}, tid)
+}
 
 func tidOf(ctx context.Context) (int, bool) {
 	v, ok := ctx.Value(tidKey{}).(int)
